@@ -3,7 +3,9 @@ from tools.drive import Unit
 AV = "asmjit/support/arenavector.cpp"
 STOPS = ["asmjit::Arena::alloc_reusable", "asmjit::Arena::free_reusable"]
 REPL = ["Arena_alloc_reusable_void__u64_Out_u64", "Arena_free_reusable"]
-TRUSTED = ["Arena::alloc_reusable / free_reusable replaced by ASSUMED contracts (NULL or a block of >= the requested size whose size is reported); "
+TRUSTED = ["Arena::alloc_reusable / free_reusable replaced by contracts that are assumed HERE and proved for Arena::_alloc_reusable / free_reusable by the units "
+           "c18.arena.alloc_reusable / c18.arena.free_reusable (granted size, addressable block disjoint from live memory); the link between the two "
+           "formulations ('disjoint from every live block' vs. 'fresh object') is by inspection, not machine-checked",
            "memcpy/memset: byte loop stubs"]
 
 
